@@ -529,6 +529,94 @@ theorem feed_bad_done (tr : List (Nat × Wire × Bool)) (b : Builder) (hb : ∀ 
     exact ⟨h2.1.trans h1.1, h2.2.trans h1.2⟩
 
 
+
+
+theorem afterAnswers_tc_udp (b : Builder) (now : Nat) (m : Msg) (htc : m.tc = true) :
+    (afterAnswers b now m true).1.v4done = b.v4done ∧ (afterAnswers b now m true).1.v6done = b.v6done := by
+  unfold afterAnswers
+  cases m.ansEnd with
+  | hdrErr => simp
+  | bodyErr ttl => simp
+  | done =>
+    simp only [htc, Bool.not_true, Bool.or_self, Bool.false_eq_true, if_false]
+    have hf := foldAuth_done now m.auths b
+    by_cases hs : (soaOnlyIfZero && b.exp.isSome) = true
+    · simp [hs]
+    · simp only [hs, Bool.false_eq_true, if_false]
+      cases m.authEnd with
+      | done => simpa using hf
+      | hdrErr => simpa using hf
+      | skipErr soa ttl =>
+        have : (applyAuth now (m.auths.foldl (applyAuth now) b) (soa, ttl)).v4done = (m.auths.foldl (applyAuth now) b).v4done ∧
+            (applyAuth now (m.auths.foldl (applyAuth now) b) (soa, ttl)).v6done = (m.auths.foldl (applyAuth now) b).v6done := by
+          unfold applyAuth; split <;> exact ⟨rfl, rfl⟩
+        simp only [Bool.not_false, if_true]
+        exact ⟨this.1.trans hf.1, this.2.trans hf.2⟩
+
+theorem parseBody_tc_udp (b : Builder) (now : Nat) (m : Msg) (htc : m.tc = true) :
+    (parseBody b now m true).1.v4done = b.v4done ∧ (parseBody b now m true).1.v6done = b.v6done := by
+  rw [parseBody_eq]
+  split; · exact ⟨rfl, rfl⟩
+  split; · exact ⟨rfl, rfl⟩
+  split; · exact ⟨rfl, rfl⟩
+  dsimp only
+  have hb : (if rcodeFailure.contains m.rcode = true then { b with exp := failureExp b.exp now } else b).v4done = b.v4done ∧
+      (if rcodeFailure.contains m.rcode = true then { b with exp := failureExp b.exp now } else b).v6done = b.v6done := by
+    split <;> exact ⟨rfl, rfl⟩
+  split
+  · exact hb
+  · have h5 := afterAnswers_tc_udp (m.answers.foldl (applyAns now) (if rcodeFailure.contains m.rcode = true then { b with exp := failureExp b.exp now } else b)) now m htc
+    have h6 := foldAns_done now m.answers (if rcodeFailure.contains m.rcode = true then { b with exp := failureExp b.exp now } else b)
+    exact ⟨h5.1.trans (h6.1.trans hb.1), h5.2.trans (h6.2.trans hb.2)⟩
+
+theorem afterAnswers_hdr (b : Builder) (now : Nat) (m : Msg) (u : Bool) (hd : Hdr)
+    (h : (afterAnswers b now m u).2 = some hd) : hd = m.hdr := by
+  unfold afterAnswers at h
+  cases hae : m.ansEnd with
+  | hdrErr => simp [hae] at h
+  | bodyErr ttl => simp [hae] at h
+  | done =>
+    simp only [hae] at h
+    repeat' split at h
+    all_goals first | (cases h; done) | (cases h; rfl) | (injection h with h'; exact h'.symm)
+
+theorem parseBody_hdr (b : Builder) (now : Nat) (m : Msg) (u : Bool) (hd : Hdr)
+    (h : (parseBody b now m u).2 = some hd) : hd = m.hdr := by
+  rw [parseBody_eq] at h
+  split at h; · cases h
+  split at h; · cases h
+  split at h; · cases h
+  dsimp only at h
+  split at h; · cases h
+  exact afterAnswers_hdr _ now m u hd h
+
+/-- over UDP a response with the TC bit never completes a family -/
+theorem parseMsg_tc_udp (b b' : Builder) (now : Nat) (w : Wire) (h : Hdr)
+    (hp : parseMsg b now w true = (b', some h)) (htc : h.tc = true) :
+    b'.v4done = b.v4done ∧ b'.v6done = b.v6done := by
+  unfold parseMsg at hp
+  cases w with
+  | garbage => cases hp
+  | msg m =>
+    dsimp only at hp
+    cases hi : idCheck b m.id with
+    | none => simp [hi] at hp
+    | some r =>
+      obtain ⟨b1, d⟩ := r
+      have hd := idCheck_done b b1 m.id d hi
+      cases d with
+      | true => simp only [hi, Prod.mk.injEq] at hp; rw [← hp.1]; exact hd
+      | false =>
+        simp only [hi] at hp
+        have hh : (parseBody b1 now m true).2 = some h := by rw [hp]
+        have hmtc : m.tc = true := by
+          have := parseBody_hdr b1 now m true h hh
+          rw [this] at htc; exact htc
+        have := parseBody_tc_udp b1 now m hmtc
+        rw [hp] at this
+        exact ⟨this.1.trans hd.1, this.2.trans hd.2⟩
+
+
 section spec
 variable {K V : Type} [DecidableEq K]
 
